@@ -102,7 +102,9 @@ theorem step_noReq (a : Agent) (e : Ev) (hl : a.cfg.lite = true) (hc : (step a e
     simp only [step] at hres
     split at hres
     · subst hres; exact noReq_res _
-    · have h1 := addRemoteCandidate_hok (ex := True) a c
+    · split at hres
+      · subst hres; exact NoReq.nil
+      have h1 := addRemoteCandidate_hok (ex := True) a c
       have h2 := runForced_hok (wp := False) (a.addRemoteCandidate c).1 now
       have : res = (((a.addRemoteCandidate c).1.runForced now).1,
           (a.addRemoteCandidate c).2.1 ++ ((a.addRemoteCandidate c).1.runForced now).2) := hres.symm.trans rfl
